@@ -67,6 +67,15 @@ func NewCtx(prop, tier string) *Ctx {
 	return c
 }
 
+// NewCtxNoClean is NewCtx without removing earlier replay files.
+func NewCtxNoClean(prop, tier string) *Ctx {
+	dir, err := os.MkdirTemp("", "vcheck-"+prop+"-")
+	if err != nil {
+		panic(err)
+	}
+	return &Ctx{Prop: prop, Tier: tier, Workers: runtime.NumCPU(), Scratch: dir, Start: time.Now(), known: loadKnown()}
+}
+
 func (c *Ctx) Cleanup() {
 	if os.Getenv("VERIF_KEEP") != "" {
 		fmt.Println("scratch kept:", c.Scratch)
